@@ -111,7 +111,7 @@ type ContractSet struct {
 	UFuns          map[string]*UFun
 	Axioms         []*Axiom
 	Funcs          map[string]*Contract
-	ZeroFacts map[string][]*Axiom // type string -> facts about a freshly allocated zero value `x`
+	ZeroFacts      map[string][]*Axiom // type string -> facts about a freshly allocated zero value `x`
 	Pins           []*Pin
 	Defs           map[string]*SpecDef // key pkg.name
 	Devirts        []Devirt
